@@ -6,7 +6,7 @@ from checks.outparse import parse_raws, parse_views
 
 ID = "C15"
 LEAN_MODULES = ["Econf.Props.C15"]
-THEOREMS = []
+THEOREMS = ["Econf.C15_options", "Econf.C15_unknown", "Econf.C15_unknown_string", "Econf.applyOption_item", "Econf.C15_join_step", "Econf.C15_no_join", "Econf.C15_python_continues", "Econf.C15_python_append"]
 RULE = ("join documents (repeated keys, empty definitions, multi-line definitions), python-style documents (indented continuation lines "
         "containing delimiters and comment characters) and option strings built from the documented items in every order, repeated, "
         "and with unknown or misspelt names; distinct by (content or option string, sets)")
